@@ -2,7 +2,7 @@
 from props._e3 import make
 
 globals().update(make(
-    'C13', ('acct',),
+    'C13', ('acct', 'cycle'),
     [('interrupt', 7), ('contention', 2), ('general', 2)],
     'Oracle: reference state machine per processor driven by the observed shutdown/restored/receive/finish '
     'callbacks (three callbacks of each kind registered): no part accepted or finished while down; a failure '
@@ -11,7 +11,7 @@ globals().update(make(
     'shutdown/restore produce no callback; after every event uptime == integrated operational time and '
     'utilization_time == integrated operational in-process time (exact on the grid); callbacks of a kind run once '
     'per occurrence in registration order; a default work order (real Maintainer, PartProcessor subclass reporting '
-    'a duration) ends exactly duration after its start hook. Non-trivial = at least one failure with a part in '
+    'a duration) ends exactly duration after its start hook; the cycle oracle of C06 is on as well (utilisation is only the time spent processing if a part is released after exactly its cycle of operational time). Non-trivial = at least one failure with a part in '
     'process AND at least one maintenance shutdown with a part in process; distinct = SHA-1 of the canonical spec.',
     lambda mon, case: any(r.fail_with_part for r in mon.refs.values()) and any(r.maint_with_part for r in mon.refs.values()),
     lambda mon, case: (['work-order-started'] if mon.m.wo_started else []),
